@@ -44,44 +44,58 @@ def _fill_matches(rule, world, render):
 
 
 def run_episode(spec, uid="E"):
-    render, back = _renderer(spec.get("render", "ident"))
+    default_kind = spec.get("render", "ident")
     worlds = {0: World(spec["world"]["modules"], spec["world"]["imports"])}
     reals = {}
     events = []
 
-    def real(a):
-        if a not in reals:
-            reals[a] = build_real(worlds[a], render)
-            events.append({"k": "arch", "a": f"{uid}.A{a}", "first": not events, **observe(reals[a], back)})
-        return reals[a]
+    # an architecture is addressed by its world number, or by [world number, rendering] (C14: the same abstract
+    # world rendered under several injective component renamings inside one episode)
+    def key(a):
+        return (a[0], a[1]) if isinstance(a, (list, tuple)) else (a, default_kind)
 
-    referenced = {(a, rid) for it in spec["items"] if it["op"] == "law" for a, rid in zip(it["as"], it["rids"])}
-    seen_eval = set()
+    def aid(a):
+        n, kind = key(a)
+        return f"{uid}.A{n}" if kind == default_kind else f"{uid}.A{n}{kind}"
+
+    def real(a):
+        k = key(a)
+        if k not in reals:
+            render, back = _renderer(k[1])
+            reals[k] = (build_real(worlds[k[0]], render), render, back)
+            events.append({"k": "arch", "a": aid(a), "first": not events, **observe(reals[k][0], back),
+                           "given": worlds[k[0]].json()})
+        return reals[k]
+
+    referenced = {(key(a), rid) for it in spec["items"] if it["op"] == "law" for a, rid in zip(it["as"], it["rids"])}
+    from collections import Counter
+    n_evals = Counter((key(it["a"]), it["rid"]) for it in spec["items"] if it["op"] == "eval")
     for it in spec["items"]:
         op = it["op"]
         if op == "eval":
-            ev = real(it["a"])
+            ev, render, back = real(it["a"])
             before = observe(ev, back)
             o = evaluate(it["rule"], ev, render, back, it.get("single_as_string", True))
-            seen_eval.add((it["a"], it["rid"]))
-            events.append({"k": "eval", "a": f"{uid}.A{it['a']}", "rid": it["rid"],
-                           "rule": _fill_matches(it["rule"], worlds[it["a"]], render),
+            k = (key(it["a"]), it["rid"])
+            events.append({"k": "eval", "a": aid(it["a"]), "rid": it["rid"],
+                           "rule": _fill_matches(it["rule"], worlds[key(it["a"])[0]], render),
                            "out": o["out"], "real": o["real"],
                            "miss": [{"other": m["other"], "sub": m["sub"], "objs": m["objs"]} for m in o["miss"]],
                            "bad": o["bad"], "same": observe(ev, back) == before,
-                           "keep": (it["a"], it["rid"]) in referenced or (it["a"], it["rid"]) in seen_eval
-                                   or it.get("keep", False),
+                           "keep": k in referenced or n_evals[k] > 1 or it.get("keep", False),
                            "raw": o["raw"][:2000]})
         elif op == "addimport":
             real(it["a"])
+            _, render, back = real(it["a"])
             e = (tuple(it["e"][0]), tuple(it["e"][1]))
-            worlds[it["a2"]] = worlds[it["a"]].with_import(e)
-            reals[it["a2"]] = build_real(worlds[it["a2"]], render)
-            events.append({"k": "addimport", "a": f"{uid}.A{it['a']}", "a2": f"{uid}.A{it['a2']}",
-                           "e": [list(e[0]), list(e[1])], **observe(reals[it["a2"]], back)})
+            n2, kind2 = key(it["a2"])
+            worlds[n2] = worlds[key(it["a"])[0]].with_import(e)
+            reals[(n2, kind2)] = (build_real(worlds[n2], render), render, back)
+            events.append({"k": "addimport", "a": aid(it["a"]), "a2": aid(it["a2"]),
+                           "e": [list(e[0]), list(e[1])], **observe(reals[(n2, kind2)][0], back)})
         elif op == "query":
             from harness.rulesapi import real_filter
-            ev = real(it["a"])
+            ev, render, back = real(it["a"])
             deps = [real_filter(f, render) for f in it["dependents"]]
             upons = [real_filter(f, render) for f in it["upons"]]
             conv = (lambda s_: s_.split(".")) if back is None else back
@@ -100,10 +114,10 @@ def run_episode(spec, uid="E"):
                 result = [{"key": [fj(k)], "deps": [[conv(d[0].identifier), conv(d[1].identifier)] for d in v]}
                           for k, v in res.items()]
             strip = lambda fs: [{k: f[k] for k in ("kind", "name", "matches")} for f in fs]
-            events.append({"k": "query", "a": f"{uid}.A{it['a']}", "q": it["q"], "dependents": strip(it["dependents"]),
+            events.append({"k": "query", "a": aid(it["a"]), "q": it["q"], "dependents": strip(it["dependents"]),
                            "upons": strip(it["upons"]), "result": result})
         elif op == "law":
-            events.append({"k": "law", "law": it["law"], "as": [f"{uid}.A{a}" for a in it["as"]], "rids": it["rids"]})
+            events.append({"k": "law", "law": it["law"], "as": [aid(a) for a in it["as"]], "rids": it["rids"]})
         else:
             raise ValueError(op)
     return events
